@@ -211,6 +211,24 @@ def _case(victims, kind, off, cls, with_cache, do_repair):
                 problems.append(("check() after repair disagrees with classification", sorted(chk), sorted(still)))
             if not (damaged - recoverable) and (chk or rep_named):
                 problems.append(("all damage was recoverable but repair()/check() still report", sorted(rep_named), sorted(chk)))
+            # the repairing session (whether repair() succeeded or gave up on some jobs) may go on and update the persistent cache:
+            # neither that session nor a fresh one may afterwards hand out a state point that does not hash to its id
+            try:
+                pr3.update_cache()
+            except Exception:  # noqa
+                pass
+            for sess in (pr3, memfs.mkproject(fs)):
+                for d in sp2:
+                    try:
+                        h3 = sess.open_job(id=d)
+                        got = h3.statepoint()
+                        if refs.canon_id(got) != d:
+                            problems.append(("after repair() + update_cache(): open_job(id) yields a state point that does not hash to the id", d, got))
+                        cs = dict(h3.cached_statepoint)
+                        if refs.canon_id(cs) != d:
+                            problems.append(("after repair() + update_cache(): cached_statepoint does not hash to the id", d, cs))
+                    except Exception:  # noqa
+                        pass
             # documents and data files byte-identical (a repaired misnamed directory moves as a whole)
             strip = lambda pl: sorted((k.split("/", 1)[1], v) for k, v in pl.items() if "/" in k)
             if strip(payload2) != strip(payload):
